@@ -17,6 +17,7 @@ type Locker = sync.Locker
 // equivalent schedules.
 var YieldOnUnlock = false
 
+//go:norace
 func unlockPoint(what string) {
 	if YieldOnUnlock {
 		sched.Point(what)
@@ -28,6 +29,7 @@ type Mutex struct {
 	locked bool
 }
 
+//go:norace
 func (m *Mutex) Lock() {
 	if !sched.Active() {
 		m.real.Lock()
@@ -38,23 +40,32 @@ func (m *Mutex) Lock() {
 		sched.Block("Mutex.Lock", func() bool { return !m.locked })
 	}
 	m.locked = true
+	m.real.Lock() // never blocks here; it gives the race detector the program's own happens-before edge
 }
 
+//go:norace
 func (m *Mutex) Unlock() {
 	if !sched.Active() {
 		m.real.Unlock()
 		return
 	}
-	if !m.locked && !sched.Killed() {
-		panic("sync: unlock of unlocked mutex")
+	if !m.locked {
+		if !sched.Killed() {
+			panic("sync: unlock of unlocked mutex")
+		}
+		return
 	}
 	m.locked = false
+	m.real.Unlock()
 	unlockPoint("Mutex.Unlock")
 }
 
 // VerifLocked reports the shim's lock state (harness observation, controlled executions only).
+//
+//go:norace
 func (m *Mutex) VerifLocked() bool { return m.locked }
 
+//go:norace
 func (m *Mutex) TryLock() bool {
 	if !sched.Active() {
 		return m.real.TryLock()
@@ -64,6 +75,7 @@ func (m *Mutex) TryLock() bool {
 		return false
 	}
 	m.locked = true
+	m.real.Lock()
 	return true
 }
 
@@ -74,6 +86,7 @@ type RWMutex struct {
 	wwait   int // writers waiting: new readers queue behind them, as in the real RWMutex
 }
 
+//go:norace
 func (m *RWMutex) Lock() {
 	if !sched.Active() {
 		m.real.Lock()
@@ -86,20 +99,27 @@ func (m *RWMutex) Lock() {
 		m.wwait--
 	}
 	m.writer = true
+	m.real.Lock()
 }
 
+//go:norace
 func (m *RWMutex) Unlock() {
 	if !sched.Active() {
 		m.real.Unlock()
 		return
 	}
-	if !m.writer && !sched.Killed() {
-		panic("sync: Unlock of unlocked RWMutex")
+	if !m.writer {
+		if !sched.Killed() {
+			panic("sync: Unlock of unlocked RWMutex")
+		}
+		return
 	}
 	m.writer = false
+	m.real.Unlock()
 	unlockPoint("RWMutex.Unlock")
 }
 
+//go:norace
 func (m *RWMutex) RLock() {
 	if !sched.Active() {
 		m.real.RLock()
@@ -110,25 +130,35 @@ func (m *RWMutex) RLock() {
 		sched.Block("RWMutex.RLock", func() bool { return !m.writer && m.wwait == 0 })
 	}
 	m.readers++
+	m.real.RLock()
 }
 
+//go:norace
 func (m *RWMutex) RUnlock() {
 	if !sched.Active() {
 		m.real.RUnlock()
 		return
 	}
-	if m.readers <= 0 && !sched.Killed() {
-		panic("sync: RUnlock of unlocked RWMutex")
+	if m.readers <= 0 {
+		if !sched.Killed() {
+			panic("sync: RUnlock of unlocked RWMutex")
+		}
+		return
 	}
 	m.readers--
+	m.real.RUnlock()
 	unlockPoint("RWMutex.RUnlock")
 }
 
+//go:norace
 func (m *RWMutex) RLocker() Locker { return (*rlocker)(m) }
 
 type rlocker RWMutex
 
-func (r *rlocker) Lock()   { (*RWMutex)(r).RLock() }
+//go:norace
+func (r *rlocker) Lock() { (*RWMutex)(r).RLock() }
+
+//go:norace
 func (r *rlocker) Unlock() { (*RWMutex)(r).RUnlock() }
 
 type WaitGroup struct {
@@ -136,23 +166,32 @@ type WaitGroup struct {
 	n    int
 }
 
+//go:norace
 func (w *WaitGroup) Add(d int) {
 	if !sched.Active() {
 		w.real.Add(d)
 		return
 	}
 	w.n += d
-	if w.n < 0 && !sched.Killed() {
-		panic("sync: negative WaitGroup counter")
+	if w.n < 0 {
+		if !sched.Killed() {
+			panic("sync: negative WaitGroup counter")
+		}
+	} else {
+		w.real.Add(d)
 	}
 	sched.Point("WaitGroup.Add")
 }
 
+//go:norace
 func (w *WaitGroup) Done() { w.Add(-1) }
 
 // VerifCount returns the counter (harness observation, controlled executions only).
+//
+//go:norace
 func (w *WaitGroup) VerifCount() int { return w.n }
 
+//go:norace
 func (w *WaitGroup) Wait() {
 	if !sched.Active() {
 		w.real.Wait()
@@ -161,6 +200,9 @@ func (w *WaitGroup) Wait() {
 	sched.Point("WaitGroup.Wait")
 	if w.n > 0 {
 		sched.Block("WaitGroup.Wait", func() bool { return w.n <= 0 })
+	}
+	if w.n == 0 {
+		w.real.Wait()
 	}
 }
 
@@ -172,10 +214,12 @@ type Cond struct {
 
 type condWaiter struct{ woken bool }
 
+//go:norace
 func NewCond(l Locker) *Cond {
 	return &Cond{L: l, real: sync.NewCond(l)}
 }
 
+//go:norace
 func (c *Cond) Wait() {
 	if !sched.Active() {
 		c.real.Wait()
@@ -188,6 +232,7 @@ func (c *Cond) Wait() {
 	c.L.Lock()
 }
 
+//go:norace
 func (c *Cond) Signal() {
 	if !sched.Active() {
 		c.real.Signal()
@@ -200,6 +245,7 @@ func (c *Cond) Signal() {
 	}
 }
 
+//go:norace
 func (c *Cond) Broadcast() {
 	if !sched.Active() {
 		c.real.Broadcast()
@@ -218,6 +264,7 @@ type Once struct {
 	m    Mutex
 }
 
+//go:norace
 func (o *Once) Do(f func()) {
 	if !sched.Active() {
 		o.real.Do(f)
